@@ -546,7 +546,17 @@ def gen_setter(rng, case, dists, valid=True):
     tri = case["graph"]["base"] == 3
     vv = lambda nm: c10.valid_value(rng, nm)  # noqa: E731
     kind = rng.choice(["positional", "partial", "surplus", "keyword", "kw_subset", "kw_subset", "mixed", "global", "side", "arc", "arc",
-                       "unknown", "sub", "sub", "sub", "dist"])
+                       "unknown", "sub", "sub", "sub", "dist", "side_lnl", "side_lnl"])
+    if kind == "side_lnl":
+        # directed (R5-C11): a side-prefixed keyword of an LNL-to-LNL arc through the composite's own setters; with symmetric
+        # LNL spread it must not give the sides different values (Bilateral: both sides follow; Midline: ignored)
+        pres = {"Bilateral": ["ipsi_", "contra_"], "Midline": ["ipsi_", "contra_", "noext_contra_", "ext_contra_"]}.get(cls)
+        if not pres or not L:
+            kind = "side"
+        else:
+            kw = {rng.choice(pres[:2] if rng.random() < 0.7 else pres) + l: vv(l) for l in rng.sample(L, rng.randint(1, min(2, len(L))))}
+            return {"op": "set", "m": rng.choice(["set_params", "set_spread_params", "set_lnl_spread_params"]), "args": [], "kwargs": kw,
+                    "style": "side"}
     if kind == "arc" and cls != "Unilateral":
         # un-prefixed arc-level names ('TtoII_spread', 'IItoIII_micro', 'II_growth') only: in a composite they address
         # that arc on every side / in every sub-model, and derived values (the Midline mixture) must follow
